@@ -21,20 +21,24 @@ Lemma gap_skip_witness :
   snd (step cf_gap s AWfhPoll) = OPoll [0].              (* wait_for_historical_data completed *)
 Proof. vm_compute. repeat split; reflexivity. Qed.
 
-(* --- stale reader proxy: the matched reliable reader is deleted while a sample is unacknowledged;
-   the RTPS reader proxy stays, nobody acknowledges, wait_for_acknowledgments never completes *)
+(* --- parked callers are forgotten: the matched reliable reader is deleted while a sample is
+   unacknowledged; the RTPS reader proxy is deleted with it (so a FRESH wait_for_acknowledgments call
+   succeeds at once), but the wait list is only re-evaluated when an ACKNACK is accepted: the caller
+   parked earlier is never answered *)
 Definition cf_plain : cfg := mkCfg 1344 true false 0.
 Definition sched_stale (del : action) : list action :=
   [AMatch true false; AWrite 1 24 11; ADrop 0; AWfa; del] ++ heal 3.
 
-Lemma stale_proxy_witness_reader :
+Lemma stale_waiter_witness_reader :
   let s := run cf_plain init (sched_stale ADelReader) in
-  s_rd s = None /\ s_dcps s = false /\ snd (step cf_plain s AWfaPoll) = OPoll [1] /\ snd (step cf_plain s AWfa) = OCode (-1).
+  s_rp s = None /\ s_dcps s = false /\ s_net s = [] /\
+  snd (step cf_plain s AWfaPoll) = OPoll [1] /\ snd (step cf_plain s AWfa) = OCode 0.
 Proof. vm_compute. repeat split; reflexivity. Qed.
 
-Lemma stale_proxy_witness_participant :
+Lemma stale_waiter_witness_participant :
   let s := run cf_plain init (sched_stale ADelPart) in
-  s_rd s = None /\ s_dcps s = false /\ snd (step cf_plain s AWfaPoll) = OPoll [1] /\ snd (step cf_plain s AWfa) = OCode (-1).
+  s_rp s = None /\ s_dcps s = false /\ s_net s = [] /\
+  snd (step cf_plain s AWfaPoll) = OPoll [1] /\ snd (step cf_plain s AWfa) = OCode 0.
 Proof. vm_compute. repeat split; reflexivity. Qed.
 
 (* --- a BEST_EFFORT VOLATILE reader that matches late is sent (and presents) the retained history:
